@@ -190,11 +190,9 @@ impl Thread {
 
 impl Drop for ThreadPool {
     fn drop(&mut self) {
-        if let Some(mut recovery_thread) = self.recovery_thread.take() {
-            if let Some(thread) = recovery_thread.0.take() {
-                thread.join().unwrap();
-            }
-        }
+        // The recovery thread waits for panic notifications for as long as it lives, so it can only be detached
+        // (as `stop` does), never joined
+        self.recovery_thread = None;
 
         for thread in &mut *self.threads.lock().unwrap() {
             if let Some(thread) = thread.os_thread.take() {
